@@ -229,6 +229,7 @@ theorem message_roundtrip (P : Profile) (hwf : ProfileWF P = true) (arch : Endia
     (hinv : ∀ i v, m.vals[i]? = some v → isInvalidVal pm i v = true → pm.invalid[i]? = some v) :
     ∃ (fs : List PField) (parts : List Bytes),
       bs = serialize [.defn (defOf arch m.num fs) false, .data 0 parts []] ∧
+      (∀ pf ∈ fs, pf ∈ pm.fields) ∧ FieldsFit (fs.map fdOf) parts ∧ fs.length < 256 ∧
       ∀ st : DecSt, ∃ st', stepFields P (defOf arch m.num fs) true (defOf arch m.num fs).fields parts
         (some ⟨m.num, pm.invalid⟩) st = .ok (some m) st' := by
   -- redo the decomposition of encodeOne, keeping the link between parts and fields
@@ -263,7 +264,14 @@ theorem message_roundtrip (P : Profile) (hwf : ProfileWF P = true) (arch : Endia
           injection hmb with hmb
           subst hmb
           obtain ⟨parts, hp1, hp2⟩ := concatE_ok _ _ hc
-          refine ⟨fs, parts, ?_, ?_⟩
+          have hfsl : fs.length < 256 := by
+            obtain ⟨_, hlay, hinvl, _⟩ := msgWF_bounds pm hmw
+            have htc : pm.hasCtor = true ∧ pm.hasType = true := by
+              cases h1 : pm.hasCtor <;> cases h2 : pm.hasType <;> simp [h1, h2] at hcond ⊢
+            have := hinvl htc.2 htc.1
+            have := (encodeMesgDef_mem pm m fs hdef).2
+            omega
+          refine ⟨fs, parts, ?_, hmem, parts_fit arch pm m fs parts (fun pf hp => (msgWF_bounds pm hmw).2.2.2 pf (hmem pf hp)) hp1, hfsl, ?_⟩
           · rw [defBytes_eq, hp2]
             simp [serialize, serializeItem, u8]
           · intro st
